@@ -806,7 +806,7 @@ def decide(pid, tier, seed):
                               + ("; coqchk -o -silent -R coq FC FC.Properties.%s" % pid if tier == "thorough" else ""),
                   trusted_base=["Coq 8.16.1 kernel (coqc" + ("; coqchk re-check" if tier == "thorough" else "") + "); no native_compute",
                                 "axioms: none (every Print Assumptions reports 'Closed under the global context')",
-                                "extraction: ExtrOcamlBasic only, no Extract Constant / Extract Inductive of our own; OCaml 4.13.1; runner/main.ml, runner/comain.ml (parsers/printers)",
+                                "extraction: ExtrOcamlBasic only, no Extract Constant / Extract Inductive of our own; OCaml 4.13.1; runner/main.ml, runner/comain.ml, runner/montool.ml (parsers/printers)",
                                 "correspondence check: harness/ (Rust, scripted children, logging wakers), tools/driver.py, tools/gen.py; it samples",
                                 "modelled, not verified: all of /repo/src (hand-written model tied by differential execution); std Mutex/Arc/Waker, slab, fixedbitset, smallvec, futures-buffered, pin-project, rustc drop glue and async lowering are outside the model"],
                   theorems=pr["theorems"], examples=pr["examples"], proof_status=("ok" if pr["ok"] else pr["why"]),
